@@ -198,3 +198,26 @@ def _rel_mixed(pid, contract, ob):
 
 for _p in ("C10", "C04", "C20"):
     PROPS[_p]["relevant"] = _rel_mixed
+
+_J_ASSUME = LIB_ASSUMPTIONS + [
+    "record schema: each record carries the fields its op code writes (discharged where JournalStorage builds the "
+    "record, assumed for records written by other versions/tools)",
+    "json_to_distribution / to_external_repr / check_distribution_compatibility abstracted by uninterpreted functions "
+    "of their arguments (deterministic: the same record gives the same result on every worker)",
+    "datetime.fromisoformat deterministic; pickle/JSON round trips preserve records (assumed)",
+    "W4 (dom(params) == dom(distributions)) of stored trials is a stated precondition of _apply_set_trial_param",
+]
+PROPS["C06"] = dict(
+    modules=["contracts.journal"],
+    claim="Every journal replay handler (_apply_* x10) is proved, for all shared states satisfying the representation "
+          "invariant J1-J4 and all records, to (a) compute the new shared state as a function of (shared state, record) "
+          "that does not mention the worker id, (b) raise only when the record was issued by this worker, (c) leave the "
+          "shared state unchanged on every rejection path, and (d) preserve J1-J4; private state (ownership, last created "
+          "id) changes only at the issuer. Two workers that applied the same records therefore hold equal shared state.",
+    note="batching/snapshot equivalence follows from the per-record contracts by induction (meta-argument); pickle/JSON "
+         "round trips and the file backend (C07) assumed",
+    assumptions=_J_ASSUME,
+    not_covered=["Redis backend", "pickle snapshot round trip (axiom)", "dict iteration order (the handlers use membership and explicit id lists only)"],
+    witnesses={"JournalStorageReplayResult._apply_delete_study:post/deleted/2": "witnesses.f3",
+               "JournalStorageReplayResult._apply_set_trial_state_values:post/already-running/2": "witnesses.f4"},
+)
